@@ -157,6 +157,13 @@ func (g *groupBy) hash(ec context.Context) (mit executor.MIterator, err error) {
 	return newGroupIterator(groupMap, groupLst), nil
 }
 
+// Kind markers written in front of every group-by key component.
+const (
+	groupKeyKindNull byte = iota
+	groupKeyKindStr
+	groupKeyKindInt
+)
+
 func formatGroupByKey(point *measurev1.DataPoint, groupByTagsRefs [][]*logical.TagRef) (uint64, error) {
 	hash := xxhash.New()
 	for _, tagFamilyRef := range groupByTagsRefs {
@@ -168,19 +175,34 @@ func formatGroupByKey(point *measurev1.DataPoint, groupByTagsRefs [][]*logical.T
 				return 0, errors.New("tag index out of range")
 			}
 			tag := point.GetTagFamilies()[tagRef.Spec.TagFamilyIdx].GetTags()[tagRef.Spec.TagIdx]
+			// Every component is self-delimiting: a one-byte kind marker followed by a
+			// fixed-width integer or a length-prefixed string. Hashing the bare string bytes
+			// would make different tuples such as ("ab","c") and ("a","bc") share one key.
 			switch v := tag.GetValue().GetValue().(type) {
 			case *modelv1.TagValue_Str:
-				_, innerErr := hash.Write([]byte(v.Str.GetValue()))
-				if innerErr != nil {
+				str := v.Str.GetValue()
+				if _, innerErr := hash.Write([]byte{groupKeyKindStr}); innerErr != nil {
+					return 0, innerErr
+				}
+				if _, innerErr := hash.Write(convert.Uint64ToBytes(uint64(len(str)))); innerErr != nil {
+					return 0, innerErr
+				}
+				if _, innerErr := hash.WriteString(str); innerErr != nil {
 					return 0, innerErr
 				}
 			case *modelv1.TagValue_Int:
-				_, innerErr := hash.Write(convert.Int64ToBytes(v.Int.GetValue()))
-				if innerErr != nil {
+				if _, innerErr := hash.Write([]byte{groupKeyKindInt}); innerErr != nil {
+					return 0, innerErr
+				}
+				if _, innerErr := hash.Write(convert.Int64ToBytes(v.Int.GetValue())); innerErr != nil {
 					return 0, innerErr
 				}
 			case *modelv1.TagValue_IntArray, *modelv1.TagValue_StrArray, *modelv1.TagValue_BinaryData:
 				return 0, errors.New("group-by on array/binary tag is not supported")
+			default:
+				if _, innerErr := hash.Write([]byte{groupKeyKindNull}); innerErr != nil {
+					return 0, innerErr
+				}
 			}
 		}
 	}
